@@ -313,7 +313,7 @@ def run_units(prop, unit_files, tier, jobs=None, harness_timeout=None, only=None
             if not hs:
                 continue
             j = jobs or max(2, min(int(os.environ.get("VERIF_JOBS", NCPU - 2)), len(hs)))
-            to = harness_timeout or (600 if tier == "quick" else 3600)
+            to = harness_timeout or (600 if tier == "quick" else 1500)
             cmd = ["cargo", "kani", "-p", crate] + KANI_FLAGS + [
                 "--output-format=terse", "-j", str(j), "--harness-timeout", "%ds" % to, "--exact"]
             for h in sorted(hs):
